@@ -30,10 +30,17 @@ Definition entry_valid (A : smat) (kv : key * sval) : bool :=
 
 Fixpoint bad_positions (A : smat) (d : list (key * sval)) (p : nat) : list nat :=
   match d with [] => [] | kv :: r => if entry_valid A kv then bad_positions A r (S p) else p :: bad_positions A r (S p) end.
+(* the out-of-dict preconditioner cache (_q_cache & co) is reported at position 999 *)
+Definition adhoc_pos : nat := 999.
+Definition bad_adhoc (o : obj K) : list nat :=
+  match o_adhoc K o with
+  | Some (_, p) => if sym_valid APrecond (o_mat K o) p then [] else [adhoc_pos]
+  | None => []
+  end.
 Fixpoint bad_entries (os : list (obj K)) (i : nat) : list (nat * nat) :=
   match os with
   | [] => []
-  | o :: r => map (fun p => (i, p)) (bad_positions (o_mat K o) (dict_of (o_memo K o)) 0) ++ bad_entries r (S i)
+  | o :: r => map (fun p => (i, p)) (bad_positions (o_mat K o) (dict_of (o_memo K o)) 0 ++ bad_adhoc o) ++ bad_entries r (S i)
   end.
 Definition pair_eqb (a b : nat * nat) : bool := Nat.eqb (fst a) (fst b) && Nat.eqb (snd a) (snd b).
 Definition subset (a b : list (nat * nat)) : bool := forallb (fun x => existsb (pair_eqb x) b) a.
